@@ -7,6 +7,8 @@ use std::sync::atomic::{AtomicUsize, Ordering};
 use std::sync::Arc;
 
 mod jitter;
+mod jitter_ref;
+mod serde_pos;
 #[cfg(feature = "send_sync_obligations")]
 mod send_sync;
 
@@ -17,6 +19,7 @@ fn main() {
     send_sync::obligations();
     let code = match args.get(1).map(|s| s.as_str()) {
         Some("jitter") => jitter::main(&args[2..]),
+        Some("serde-positions") => serde_pos::main(),
         _ => {
             eprintln!("usage: rngs-replay jitter <call> <script…>");
             2
